@@ -773,11 +773,21 @@ func isInvalid(t types.Type) bool {
 }
 
 func (fx *FX) execReturn(st *State, x *ssa.Return) {
-	fx.retCovers = append(fx.retCovers, st.PC)
 	res := make([]Val, len(x.Results))
 	for i, r := range x.Results {
 		res[i] = fx.val(r)
 	}
+	if fx.inlinedIn != nil {
+		var v Val = VUnit{}
+		if len(res) == 1 {
+			v = res[0]
+		} else if len(res) > 1 {
+			v = VTuple{E: res}
+		}
+		fx.inlineRets = append(fx.inlineRets, inlineRet{st: st.clone(), val: v})
+		return
+	}
+	fx.retCovers = append(fx.retCovers, st.PC)
 	// ownership: results must not alias pooled objects; exported results must not alias released ones
 	sig := fx.fn.Signature
 	for i, r := range x.Results {
